@@ -20,6 +20,7 @@ EXPLANATION = ("Structural, path-complete conditions over the 7 spawned executor
                "reachable in any item processor under either value of the instruments guard and the guard is implied by metrics() (shared with C11 R11.3 / R11.6).")
 EXPLANATION += " R12.2 reads the retry loop of register_execution_finish through flags / extracted helpers (flag-aware: no loop exit reachable once both transitions failed); (R12.7) nothing between the end of the stream loop and the close callback can kill the executor task: no fallible division / remainder / indexing whose divisor is not guarded against zero and no explicit panic in that region (a panic there means the close callback, and through the latch the Uni's, never runs)."
 EXPLANATION += ' (R12.8) the StreamExecutorStats accessors the close callback reads (status, start time, finish time) answer the atomic load of / a reference to their own field, unchanged; (R12.9) report_scheduled_to_finish (a plain store) is issued before the stream is asked to end, never after -- it would overwrite an ended state.'
+EXPLANATION += ' R12.4 also requires the transition arm to be selected by the sequential_transition argument itself (no extra conjunct such as concurrency_limit == 1).'
 ASSUMPTIONS = ["wall-clock ordering of callbacks relative to item side effects beyond dominance is not decided",
                "tokio::spawn runs the coroutine to completion; FnOnce close callbacks are at-most-once by type"]
 
